@@ -28,6 +28,60 @@ func mapType64() *abi.MapType {
 	}
 }
 
+// mapTypeCollide: every key lands in the same bucket chain (low hash bits are
+// zero), tophash = low byte of the key: long overflow chains with few keys.
+func mapTypeCollide() *abi.MapType {
+	t := mapType64()
+	t.Hasher = func(p unsafe.Pointer, seed uintptr) uintptr { return uintptr(*(*uint64)(p)) << 56 }
+	return t
+}
+
+// pick forks the exploration over lo..hi and returns a concrete value per path
+func pick(name string, lo, hi uint64) uint64 {
+	x := nd_uint64(name)
+	nd_assume(x >= lo && x <= hi)
+	for c := lo; c < hi; c++ {
+		if x == c {
+			return c
+		}
+	}
+	return hi
+}
+
+// one bucket chain of 8+n entries; two symbolic deletes of present keys, then a
+// symbolic insert: lookups, len and iteration still agree with the finite map
+func mapChain(n int, reinsert bool, iter bool) {
+	t := mapTypeCollide()
+	h := makemap(t, 0, nil)
+	var g ghost
+	for i := 1; i <= 8+n; i++ {
+		mput(t, h, uint64(i), uint64(100+i))
+		g.put(uint64(i), uint64(100+i))
+	}
+	d1, d2 := pick("d1", 1, uint64(8+n)), pick("d2", 1, uint64(8+n))
+	mdel(t, h, d1)
+	g.del(d1)
+	mdel(t, h, d2)
+	g.del(d2)
+	if reinsert {
+		k := pick("k", 1, uint64(8+n))
+		mput(t, h, k, 7)
+		g.put(k, 7)
+	}
+	checkAll(t, h, &g, "C06.chain")
+	q := nd_uint64("q")
+	nd_assume(q >= 1 && q <= uint64(9+n))
+	checkLookup(t, h, &g, q, "C06.chain.lookup")
+	if iter {
+		checkIter(t, h, &g, "C06.chain")
+	}
+	nd_reach("C06.chain")
+}
+
+func H_map_chain2()        { mapChain(2, false, false) }
+func H_map_chain2_insert() { mapChain(2, true, false) }
+func H_map_chain3_iter()   { mapChain(3, true, true) }
+
 func mput(t *abi.MapType, h *hmap, k, v uint64) {
 	p := mapassign(t, h, unsafe.Pointer(&k))
 	*(*uint64)(p) = v
